@@ -160,6 +160,12 @@ def _judge(op, dim, res, backend, cellkey, label, self_l, args, got, f64):
     res.cell(cellkey, backend, label.split("/")[0])
 
 
+def _bits_of(x):
+    if isinstance(x, E.VecResult):
+        return (x.system, x.momentum, tuple(mpmath.nstr(c, 40) for c in x.rv.comps()))
+    return repr(x)
+
+
 def _show(x):
     if hasattr(x, "stored"):
         return {"class": x.cls, "system": R.sysname(x.system), "stored": [mpmath.nstr(getattr(c, "v", c), 25) for c in x.stored]}
@@ -258,6 +264,26 @@ def run_shard(spec, tier, seed):
                                        "self": self_l.describe(), "args": [E.describe_arg(a) for a in args]})
                         continue
                     _judge(op, dim, res, "object", cellkey, d.label, self_l, args, got, True)
+                # ---- (c) the documented parameter names: the same call with every argument passed by keyword
+                d, self_l, args = cases[0]
+                try:
+                    vobj = E.mat_obj(self_l)
+                    aobj = [E.mat_obj(a) if isinstance(a, E.LVec) else E._conv_scalar(a, float) for a in args]
+                    kw = C.keyword_call(op, vobj, aobj)
+                    if kw is not None:
+                        res.evaluations += 1
+                        pos = E.canon(op, op.call(vobj, *aobj))
+                        try:
+                            kres = E.canon(op, kw())
+                        except Exception as e:
+                            res.violation(f"C02/keyword-form-raises op={op.name}", {"cell": cellkey, "exc": f"{type(e).__name__}: {e}"[:200]})
+                        else:
+                            if _bits_of(pos) != _bits_of(kres):
+                                res.violation(f"C02/keyword-form-differs-from-positional op={op.name}",
+                                              {"cell": cellkey, "positional": _show(pos), "keyword": _show(kres)})
+                            res.cell("keyword-form", cellkey)
+                except Exception as e:
+                    res.count("keyword_form_not_evaluated:" + type(e).__name__)
                 try:
                     gots, _, _ = E.eval_numpy(op, [c[1] for c in cases], [c[2] for c in cases])
                 except Exception as e:
